@@ -21,7 +21,7 @@ CONSTANTS
     GW = 32
     Keepalive = FALSE
     FreeNonce = FALSE
-    MaxHandled = 8
+    MaxHandled = 6
     MaxSyncHanded = 2
 INVARIANT InOrderAtMostOnce
 INVARIANT ReliableNeverSkipped
